@@ -70,6 +70,33 @@ CONST_RE = re.compile(
 )
 
 
+def eval_const_expr(val, found):
+    """integer literals (with _ separators and an optional type suffix), earlier constants of the same file, and
+    + - * / << and parentheses over them; anything else -> None (reported as a shape the translator refuses)"""
+    toks = re.findall(r"\s*(0x[0-9a-fA-F_]+|[0-9][0-9_]*(?:u8|u16|u32|u64|usize|i32|i64)?|[A-Z][A-Z0-9_]*|<<|[-+*/()])", val)
+    if "".join(toks).replace(" ", "") != re.sub(r"\s+", "", val):
+        return None
+    out = []
+    for t in toks:
+        if re.fullmatch(r"0x[0-9a-fA-F_]+", t):
+            out.append(str(int(t.replace("_", ""), 16)))
+        elif re.fullmatch(r"[0-9][0-9_]*(?:u8|u16|u32|u64|usize|i32|i64)?", t):
+            out.append(str(int(re.sub(r"(u8|u16|u32|u64|usize|i32|i64)$", "", t).replace("_", ""))))
+        elif re.fullmatch(r"[A-Z][A-Z0-9_]*", t):
+            if t not in found:
+                return None
+            out.append(str(found[t]))
+        elif t == "/":
+            out.append("//")
+        else:
+            out.append(t)
+    try:
+        v = eval(" ".join(out), {"__builtins__": {}}, {})  # digits and arithmetic operators only
+    except Exception:
+        return None
+    return v if isinstance(v, int) else None
+
+
 def int_consts(rel, wanted=None, prefix=""):
     """All `const NAME: <int type> = <literal | other const>;` of a file, in order."""
     src = code(rel)
@@ -77,13 +104,10 @@ def int_consts(rel, wanted=None, prefix=""):
     order = []
     for m in CONST_RE.finditer(src):
         name, _ty, val = m.group(1), m.group(2), m.group(3).strip()
-        val = val.replace("_", "") if re.fullmatch(r"-?[0-9_]+", val) else val
-        if re.fullmatch(r"-?[0-9]+", val):
-            found[name] = int(val)
-        elif re.fullmatch(r"[A-Z][A-Z0-9_]*", val) and val in found:
-            found[name] = found[val]
-        else:
+        ev = eval_const_expr(val, found)
+        if ev is None:
             raise TranslateError(f"{rel}: constant {name} has an initialiser I cannot evaluate: {val!r}")
+        found[name] = ev
         order.append(name)
     if wanted is not None:
         for w in wanted:
